@@ -7,6 +7,7 @@ package vbroker
 
 import (
 	"bufio"
+	"bytes"
 	"encoding/base64"
 	"errors"
 	"fmt"
@@ -283,6 +284,13 @@ func (c *Client) reader() {
 			c.n++
 			c.mu.Unlock()
 			return
+		}
+		// the broker publishes its own statistics into the owner's contract every second (monitoring sink "self",
+		// channel stats/<node>/): a wildcard subscriber receives them at arbitrary moments. They are not an answer
+		// to any request of the session and are left out of the observables.
+		if p, ok := m.(*mqtt.Publish); ok && bytes.HasPrefix(p.Topic, []byte("stats/")) {
+			c.mu.Unlock()
+			continue
 		}
 		c.got = append(c.got, Show(m))
 		c.n++
